@@ -33,6 +33,7 @@ nesting) and reported as unexplained:<scope>:<symptom>.
 
 import math
 import warnings
+import copy as copy_
 
 from hypothesis import strategies as st
 
@@ -1091,6 +1092,559 @@ def totality_oracle(ctx, ex):
     ctx.case(nontrivial=any(c in text for c in '.=:/'), classes=classes)
 
 
+# ---------------------------------------------------------------------------
+# history: the laws hold for LIVE path objects, i.e. for paths that were
+# printed before, modified in place through a documented route (attribute
+# setters, the modifiable keybindings dictionary, the dictionary interface of
+# the path itself, the keybindings setter; at the top level or in a nested
+# reference path, which reference keybindings and copy() share, not copy),
+# copied, parsed from a printed URI and modified again.  The model is a graph
+# of recipe nodes (it knows which children are shared); after every step the
+# URI of the live object in every format must be the URI of an equal path
+# built from scratch from the model, the printed URI must parse back to the
+# model, and a text that was parsed before must parse to the same path again,
+# whatever was done to the earlier result in the meantime.
+
+_H_POOL = 4          # live top-level paths per history
+_H_DEPTH = 3         # nesting depth the property quantifies over
+_H_FMTS = FORMATS + ('str',)
+_I = st.integers(0, 999)
+
+
+# few scalar types: a large share of reference keys
+KEY_TYPES_REFS = ['string', 'int', 'boolean', 'datetime']
+
+
+def _h_step():
+    value = st.one_of(
+        S.keyvalue(1, key_types=KEY_TYPES7, strings=strings7()),
+        S.keyvalue(1, key_types=KEY_TYPES_REFS, strings=strings7()))
+    name = S.cim_name()
+    comps = st.tuples(S.classname(), st.one_of(st.none(), S.namespace()),
+                      st.one_of(st.none(), host7()))
+    set_how = st.sampled_from(['kbdict', 'kbdict', 'kbdict-update', 'item',
+                               'update'])
+    del_how = st.sampled_from(['kbdict', 'kbdict', 'kbdict-pop', 'item'])
+    return st.one_of(
+        st.tuples(st.just('parse'), _I, st.sampled_from(FORMATS)),
+        st.tuples(st.just('parse'), _I, st.sampled_from(FORMATS)),
+        st.tuples(st.just('reparse'), _I),
+        st.tuples(st.just('copy'), _I,
+                  st.sampled_from(['copy', 'copy', 'deepcopy'])),
+        st.tuples(st.just('attr'), _I, _I, st.sampled_from(
+            ['classname', 'namespace', 'host', 'classname-swapcase',
+             'namespace-swapcase', 'host-swapcase']), comps, _I),
+        st.tuples(st.just('set'), _I, _I, set_how, _I, name, value),
+        st.tuples(st.just('set'), _I, _I, set_how, _I, name, value),
+        st.tuples(st.just('del'), _I, _I, del_how, _I, _I),
+        st.tuples(st.just('replace'), _I, _I,
+                  S.keybindings(1, 1, 3, KEY_TYPES7, strings7()),
+                  st.booleans()),
+        st.tuples(st.just('share'), _I, _I, _I, _I, name),
+    )
+
+
+def history_strategy():
+    start = st.one_of(
+        ipath7(2, KEY_TYPES_REFS).map(lambda r: ('ipath', r)),
+        ipath7(2, KEY_TYPES_REFS).map(lambda r: ('ipath', r)),
+        ipath7(1, KEY_TYPES_REFS).map(lambda r: ('ipath', r)),
+        ipath7(1, KEY_TYPES_REFS).map(lambda r: ('ipath', r)),
+        ipath7(2, KEY_TYPES_DEEP).map(lambda r: ('ipath', r)),
+        ipath7(2).map(lambda r: ('ipath', r)),
+        ipath7(1).map(lambda r: ('ipath', r)),
+        ipath7(0).map(lambda r: ('ipath', r)),
+        cpath7().map(lambda r: ('cpath', r)))
+    # every: the URIs of the touched paths are requested after every n-th
+    # step (0: only at the end, i.e. the first request comes after all the
+    # modifications)
+    return st.tuples(start, st.sampled_from([1, 1, 1, 1, 2, 3, 0]),
+                     st.sampled_from([2, 3, 4, 5, 6, 8]).flatmap(
+                         lambda n: st.lists(_h_step(), min_size=n,
+                                            max_size=n)),
+                     st.sampled_from(FORMATS))
+
+
+def _neutral(r):
+    "recipe without the features that have their own roundtrip findings"
+    for _cause, fn in NEUTRALIZERS:
+        r = fn(r, 'historical')
+    return r
+
+
+def _known_feature(r, fmt):
+    return any(repr(fn(r, fmt)) != repr(r) for _cause, fn in NEUTRALIZERS)
+
+
+def _recipe_of(obj):
+    "recipe of a path as an untyped URI carries it (model of a parse result)"
+    if isinstance(obj, CIMClassName):
+        return {'k': 'cpath', 'classname': obj.classname,
+                'namespace': obj.namespace, 'host': obj.host}
+    keys = []
+    for n in obj.keybindings.keys():
+        v = obj.keybindings[n]
+        if isinstance(v, CIMInstanceName):
+            keys.append((n, 'reference', _recipe_of(v)))
+        elif isinstance(v, bool):
+            keys.append((n, 'boolean', bool(v)))
+        elif isinstance(v, CIMDateTime):
+            keys.append((n, 'datetime', ('dtstr', str(v))))
+        elif isinstance(v, str):
+            keys.append((n, 'string', str(v)))
+        elif isinstance(v, int):
+            keys.append((n, 'int', int(v)))
+        else:
+            keys.append((n, 'float', float(v)))
+    return {'k': 'ipath', 'classname': obj.classname, 'keys': keys,
+            'namespace': obj.namespace, 'host': obj.host}
+
+
+def _nested_objects(obj, acc=None):
+    "all CIMInstanceName objects inside obj (obj included), by identity"
+    acc = [] if acc is None else acc
+    acc.append(obj)
+    if isinstance(obj, CIMInstanceName):
+        for k in obj.keybindings.keys():
+            v = obj.keybindings[k]
+            if isinstance(v, CIMInstanceName) and \
+                    not any(v is a for a in acc):
+                _nested_objects(v, acc)
+    return acc
+
+
+def _follow(obj, keypath):
+    for name in keypath:
+        obj = obj.keybindings[name]
+    return obj
+
+
+class _Hist:
+    """
+    Model of one history: a graph of path nodes (recipe dicts whose
+    reference keys hold node numbers, so that shared children are
+    represented) and the pool of live top-level paths.
+    """
+
+    def __init__(self):
+        self.nodes = {}
+        self.pool = []      # dict(root, obj, kind, ok={fmt: seq})
+        self.seq = 0
+        self.log = []       # (seq, node, route label) of modifications
+        self.parsed = []    # dict(kind, text, fmt, want, seq, nodes)
+        self.handed = []    # path objects inside earlier parse results
+
+    def add(self, recipe):
+        i = len(self.nodes)
+        n = dict(recipe)
+        self.nodes[i] = n
+        if 'keys' in recipe:
+            n['keys'] = [[name, kt, self.add(v) if kt == 'reference' else v]
+                         for name, kt, v in recipe['keys']]
+        return i
+
+    def tree(self, i):
+        n = self.nodes[i]
+        r = dict(n)
+        if 'keys' in n:
+            r['keys'] = [(name, kt, self.tree(v) if kt == 'reference' else v)
+                         for name, kt, v in n['keys']]
+        return r
+
+    def children(self, i):
+        return [(name, v) for name, kt, v in self.nodes[i].get('keys', ())
+                if kt == 'reference']
+
+    def reach(self, i, acc=None):
+        acc = set() if acc is None else acc
+        if i not in acc:
+            acc.add(i)
+            for _name, c in self.children(i):
+                self.reach(c, acc)
+        return acc
+
+    def depth(self, i):
+        return max([1 + self.depth(c) for _n, c in self.children(i)] or [0])
+
+    def routes(self, i, prefix=()):
+        out = [(prefix, i)]
+        for name, c in self.children(i):
+            out.extend(self.routes(c, prefix + (name,)))
+        return out
+
+    def too_deep(self):
+        return any(self.depth(e['root']) > _H_DEPTH for e in self.pool)
+
+    def join(self, root, obj, kind):
+        e = dict(root=root, obj=obj, kind=kind, ok={})
+        self.pool.append(e)
+        return e
+
+    def modified(self, nid, label):
+        self.seq += 1
+        self.log.append((self.seq, nid, label))
+
+    def since(self, seq, nodes):
+        return [(s, n, lab) for s, n, lab in self.log
+                if s > seq and n in nodes]
+
+
+def _h_print(obj, fmt):
+    if fmt == 'str':
+        return str(obj)
+    return _print(obj, fmt)
+
+
+def _h_unexpected_sharing(h):
+    """
+    Is one live path object found at places that are different nodes of the
+    model (i.e. shared although no documented sharing took place)?
+    """
+    seen = []
+    for e in h.pool:
+        for keypath, nid in h.routes(e['root']):
+            try:
+                o = _follow(e['obj'], keypath)
+            except (KeyError, AttributeError):
+                continue
+            for o2, nid2 in seen:
+                if o is o2 and nid != nid2:
+                    return True
+            seen.append((o, nid))
+    return False
+
+
+def _h_sweep(ctx, h, entries):
+    """
+    The URI of every live path in every format is the URI of an equal path
+    built from scratch.
+    """
+    for e in entries:
+        recipe = h.tree(e['root'])
+        nodes = h.reach(e['root'])
+        for fmt in _H_FMTS:
+            fresh = S.build(recipe)
+            u1 = _h_print(e['obj'], fmt)
+            u2 = _h_print(fresh, fmt)
+            ctx.event('uri-requests-on-live-paths')
+            last = e['ok'].get(fmt)
+            mods = h.since(-1 if last is None else last, nodes)
+            if mods:
+                ctx.event('uri-after-modification:' + fmt)
+                if last is not None:
+                    ctx.event('uri-requested-then-modified-then-requested:' +
+                              fmt)
+            elif last is not None:
+                ctx.event('uri-requested-again-without-modification')
+            if u1 == u2:
+                e['ok'][fmt] = h.seq
+                continue
+            labels = sorted(set(
+                ('' if n == e['root'] else 'nested-') + lab
+                for _s, n, lab in mods))
+            d = _diff(e['obj'], fresh)
+            if d is not None:
+                # the object itself is not what the documented semantics of
+                # the modification give
+                sig = 'modified-path-is-not-equal-to-path-built-from-' \
+                    'scratch:' + d.replace('ref.', '')
+            elif _h_unexpected_sharing(h):
+                sig = 'uri-changes-when-an-independent-path-is-modified:' \
+                    'nested-path-object-shared-unexpectedly'
+            else:
+                sig = 'uri-of-modified-path-differs-from-uri-of-equal-path-' \
+                    'built-from-scratch:%s:after-%s' % (
+                        fmt, 'no-modification' if not labels else
+                        labels[0] if len(labels) == 1 else
+                        'several-modifications')
+            ctx.fail(sig, 'format %s: live %r prints %r, equal new path '
+                     'prints %r (%s); modifications since the last request: '
+                     '%r' % (fmt, e['obj'], u1, u2, _first_diff(u1, u2),
+                             [lab for _s, _n, lab in mods]))
+            # keep exploring: judge later requests by later modifications
+            e['ok'][fmt] = h.seq
+
+
+def _h_shares(h, q):
+    return any(o is o2 for o in _nested_objects(q) for o2 in h.handed)
+
+
+def _h_parse(ctx, h, e, fmt, classes, join):
+    """
+    Print the live path, parse the URI, compare with the model; the result
+    becomes a live path of the pool.
+    """
+    recipe = h.tree(e['root'])
+    if _known_feature(recipe, fmt):
+        classes.add('parse:skipped-feature-with-own-finding')
+        return []
+    kind = e['kind']
+    u = _print(e['obj'], fmt)
+    ctx.event('parse-of-uri-of-live-path')
+    if h.since(-1, h.reach(e['root'])):
+        ctx.event('parse-of-uri-of-modified-path')
+    try:
+        q = _parser(kind)(u)
+    except ValueError as exc:
+        ctx.fail('printed-uri-of-modified-path-rejected:%s:%s' % (
+            fmt, _msgclass(exc)), 'format %s: %r printed as %r is rejected: '
+            '%s' % (fmt, e['obj'], u, exc))
+        return []
+    want = _expected(S.build(recipe), fmt, [0])
+    d = _diff(q, want)
+    before = [p for p in h.parsed if p['kind'] == kind and p['text'] == u]
+    if d is not None:
+        if _h_shares(h, q):
+            sig = 'from_wbem_uri-result-contains-path-object-of-an-' \
+                'earlier-result'
+        elif before:
+            sig = 'from_wbem_uri-result-for-the-same-text-changed:' + \
+                _coarse('not-equal:' + d)
+        else:
+            sig = 'round-trip-of-modified-path:%s:%s' % (
+                fmt, _coarse('not-equal:' + d))
+        ctx.fail(sig, 'format %s: live %r printed as %r is parsed as %r, '
+                 'expected %r' % (fmt, e['obj'], u, q, want))
+        return []
+    want_recipe = _recipe_of(want)
+    if fmt == 'canonical':
+        want_recipe = _lowered(want_recipe)
+    ent = dict(kind=kind, text=u, fmt=fmt, want=want_recipe, seq=h.seq,
+               nodes=set())
+    h.parsed.append(ent)
+    h.handed.extend(_nested_objects(q))
+    if join and len(h.pool) < _H_POOL:
+        root = h.add(want_recipe)
+        ent['nodes'] = h.reach(root)
+        classes.add('pool:parse-result')
+        return [h.join(root, q, kind)]
+    return []
+
+
+def _h_reparse(ctx, h, ent):
+    "a text that was parsed before denotes the same path as before"
+    ctx.event('text-parsed-again')
+    if h.since(ent['seq'], ent['nodes']):
+        ctx.event('text-parsed-again-after-earlier-result-was-modified')
+    q = _parser(ent['kind'])(ent['text'])
+    want = S.build(ent['want'])
+    d = _diff(q, want)
+    if d is not None:
+        if _h_shares(h, q):
+            sig = 'from_wbem_uri-result-contains-path-object-of-an-' \
+                'earlier-result'
+        else:
+            sig = 'from_wbem_uri-result-for-the-same-text-changed:' + \
+                _coarse('not-equal:' + d)
+        ctx.fail(sig, '%r was parsed as %r before and is parsed as %r now' %
+                 (ent['text'], want, q))
+    else:
+        h.handed.extend(_nested_objects(q))
+
+
+def _h_keyname(node, idx, newname):
+    "an existing keybinding name, or (every third time) a new one"
+    names = [k[0] for k in node['keys']]
+    if idx % 3:
+        return names[(idx // 3) % len(names)]
+    lower = set(n.lower() for n in names)
+    name = newname
+    i = 1
+    while name.lower() in lower:
+        i += 1
+        name = '%s%d' % (newname, i)
+    return name
+
+
+def _h_setkey(h, node, name, kt, v):
+    "model of keybindings[name] = value (v: recipe value or node number)"
+    for k in node['keys']:
+        if k[0].lower() == name.lower():
+            k[1], k[2] = kt, v
+            return
+    node['keys'].append([name, kt, v])
+
+
+def _h_modify(ctx, h, step, classes):
+    """
+    One in-place modification of a live path (top level or nested) through
+    a documented route; the model node is changed in the same way.
+    -> route label or None (step not applicable)
+    """
+    op = step[0]
+    e = h.pool[step[1] % len(h.pool)]
+    routes = h.routes(e['root'])
+    keypath, nid = routes[step[2] % len(routes)]
+    node = h.nodes[nid]
+    live = _follow(e['obj'], keypath)
+    label = None
+    if op == 'attr':
+        which, (cn, ns, host), seed = step[3:6]
+        name = which.split('-')[0]
+        if which.endswith('-swapcase'):
+            if node[name] is None:
+                return None
+            val = S.swapcase_name(node[name], seed + 1)
+            classes.add('modify:case-only')
+        else:
+            val = {'classname': cn, 'namespace': ns, 'host': host}[name]
+            if name == 'host' and val is not None:
+                val = val.replace('-', 'x').replace('%', 'x')
+        node[name] = val
+        setattr(live, name, val)
+        label = 'attribute'
+    elif e['kind'] != 'ipath':
+        return None
+    elif op in ('set', 'share', 'replace'):
+        old = [list(k) for k in node['keys']]
+        other = None
+        if op == 'set':
+            how, idx, newname, (kt, v) = step[3:7]
+            name = _h_keyname(node, idx, newname)
+            kt, v = _neutral(_flat(kt, v))['keys'][0][1:]
+            _h_setkey(h, node, name, kt,
+                      h.add(v) if kt == 'reference' else v)
+            value = S.build_keyvalue(kt, v)
+        elif op == 'share':
+            other = h.pool[step[3] % len(h.pool)]
+            if other['kind'] != 'ipath' or nid in h.reach(other['root']):
+                return None     # (would be a cycle)
+            how = 'kbdict'
+            name = _h_keyname(node, step[4], step[5])
+            _h_setkey(h, node, name, 'reference', other['root'])
+            value = other['obj']
+        else:
+            how = 'kbsetter'
+            keys = _neutral(dict(_flat('uint8', 1), keys=step[3]))['keys']
+            node['keys'] = [[n, kt, h.add(v) if kt == 'reference' else v]
+                            for n, kt, v in keys]
+            value = [(n, S.build_keyvalue(kt, v)) for n, kt, v in keys]
+            if step[4]:
+                value = dict(value)
+        if h.too_deep():
+            node['keys'] = old
+            return None
+        if how == 'kbdict':
+            live.keybindings[name] = value
+        elif how == 'kbdict-update':
+            live.keybindings.update({name: value})
+        elif how == 'item':
+            live[name] = value
+        elif how == 'update':
+            live.update([(name, value)])
+        else:
+            live.keybindings = value
+        if other is not None:
+            classes.add('modify:existing-path-becomes-reference-key')
+            if live.keybindings[name] is not value:
+                # (stored as a copy: no sharing in the model either)
+                _h_setkey(h, node, name, 'reference',
+                          h.add(h.tree(other['root'])))
+        label = {'kbdict': 'keybindings-dict',
+                 'kbdict-update': 'keybindings-dict',
+                 'item': 'item-interface', 'update': 'item-interface',
+                 'kbsetter': 'keybindings-setter'}[how]
+        classes.add('modify:set-via-' + how)
+    elif op == 'del':
+        how, idx, seed = step[3:6]
+        if len(node['keys']) < 2:
+            return None     # (paths keep at least one keybinding)
+        k = node['keys'][idx % len(node['keys'])]
+        node['keys'].remove(k)
+        spelled = S.swapcase_name(k[0], seed)
+        if how == 'kbdict':
+            del live.keybindings[spelled]
+        elif how == 'kbdict-pop':
+            live.keybindings.pop(spelled)
+        else:
+            del live[spelled]
+        label = 'item-interface' if how == 'item' else 'keybindings-dict'
+        classes.add('modify:del-via-' + how)
+    h.modified(nid, label)
+    users = [p for p in h.pool if nid in h.reach(p['root'])]
+    classes.add('modify:' + ('nested-' if keypath else '') + label)
+    if len(users) > 1:
+        classes.add('modify:node-shared-by-several-live-paths')
+    if any(nid in p['nodes'] for p in h.parsed):
+        classes.add('modify:parse-result' + ('-nested' if keypath else ''))
+    return users
+
+
+def _h_copy(h, e, how, classes):
+    if len(h.pool) >= _H_POOL:
+        return None
+    if how == 'deepcopy' or e['kind'] != 'ipath':
+        obj = copy_.deepcopy(e['obj']) if how == 'deepcopy' else \
+            e['obj'].copy()
+        root = h.add(h.tree(e['root']))
+    else:
+        # copy() is documented to share the mutable keybinding values
+        obj = e['obj'].copy()
+        node = dict(h.nodes[e['root']])
+        node['keys'] = []
+        for name, kt, v in h.nodes[e['root']]['keys']:
+            if kt == 'reference' and \
+                    obj.keybindings[name] is not e['obj'].keybindings[name]:
+                v = h.add(h.tree(v))
+            node['keys'].append([name, kt, v])
+        root = len(h.nodes)
+        h.nodes[root] = node
+    classes.add('pool:' + how)
+    return [h.join(root, obj, e['kind'])]
+
+
+def history_oracle(ctx, ex):
+    (kind, recipe), every, steps, ffmt = ex
+    recipe = _neutral(recipe)
+    h = _Hist()
+    classes = set(['kind:' + kind, 'steps:%d' % len(steps),
+                   'uri-requests:' + ('only-at-the-end' if not every else
+                                      'every-%d-steps' % every)])
+    nmod = 0
+    with warnings.catch_warnings():
+        warnings.simplefilter('ignore')
+        h.join(h.add(recipe), S.build(recipe), kind)
+        if every:
+            _h_sweep(ctx, h, h.pool)
+        pending = []
+        for n, step in enumerate(steps):
+            op = step[0]
+            if op == 'parse':
+                e = h.pool[step[1] % len(h.pool)]
+                users = _h_parse(ctx, h, e, step[2], classes, True)
+            elif op == 'reparse':
+                users = []
+                if h.parsed:
+                    _h_reparse(ctx, h, h.parsed[step[1] % len(h.parsed)])
+            elif op == 'copy':
+                e = h.pool[step[1] % len(h.pool)]
+                users = _h_copy(h, e, step[2], classes)
+            else:
+                users = _h_modify(ctx, h, step, classes)
+                if users is not None:
+                    nmod += 1
+            if users is None:
+                classes.add('step-not-applicable:' + op)
+                continue
+            classes.add('op:' + op)
+            pending.extend(u for u in users
+                           if not any(u is p for p in pending))
+            if every and (n + 1) % every == 0:
+                _h_sweep(ctx, h, pending)
+                pending = []
+        # at the end: every live path in every format, the round trip of
+        # every live path, and every text parsed so far once more
+        _h_sweep(ctx, h, h.pool)
+        for e in list(h.pool):
+            _h_parse(ctx, h, e, ffmt, classes, False)
+        for ent in list(h.parsed):
+            _h_reparse(ctx, h, ent)
+    classes.add('modifications:%s' % (nmod if nmod < 4 else '4+'))
+    classes.add('live-paths:%d' % len(h.pool))
+    classes.add('refdepth:%d' % max(h.depth(e['root']) for e in h.pool))
+    ctx.case(nontrivial=nmod > 0 or len(h.pool) > 1, classes=sorted(classes))
+
+
 # Mutations of pywbem (one at a time, scratch worktree of /repo HEAD, quick
 # tier, VERIF_SEED=1) -> new signatures reported in addition to the findings
 # of the unchanged tree.
@@ -1149,4 +1703,6 @@ SUBCHECKS = [
         quick=(8, 800), thorough=(16, 8000)),
     Sub('totality', strategy=totality_strategy, oracle=totality_oracle,
         quick=(16, 2500), thorough=(16, 50000)),
+    Sub('history', strategy=history_strategy, oracle=history_oracle,
+        quick=(8, 400), thorough=(16, 6000)),
 ]
